@@ -384,39 +384,48 @@ def run_harness(spec, work_root, prop_id, replay_root):
         gbc = build_goto(work, spec, cover=True)
         to = spec.get('timeout', 300)
         outj = os.path.join(work, 'cbmc_main.json')
-        r = run(cbmc_cmd(spec, gb, False), timeout=to, cwd=work, mem_gb=spec.get('mem_gb', 4) + 1, stdout=outj)
-        res['wall_main'] = r['wall']
-        res['rss_kb'] = r['rss_kb']
-        if r['timed_out']:
-            res['verdict'] = 'not_reached'; res['detail'] = 'timeout after %ds' % to
-            return res
-        if r['rc'] not in (0, 10):
-            res['verdict'] = 'not_reached'; res['detail'] = 'cbmc ended abnormally rc=%s (memory limit %s GB?) %s' % (r['rc'], spec.get('mem_gb', 4) + 1, r['err'][-400:])
-            return res
-        data = parse_json_stream(outj)
-        if data is None:
-            res['verdict'] = 'not_reached'; res['detail'] = 'no parsable cbmc output (rc=%s) %s' % (r['rc'], r['err'][-500:])
-            return res
-        results = None; msgs = []; nobody = set()
-        for x in data:
-            if isinstance(x, dict):
-                if 'result' in x: results = x['result']
-                if x.get('messageType') == 'ERROR': msgs.append(x.get('messageText', ''))
-                mt = x.get('messageText', '')
-                if 'no body for function' in mt:
-                    nobody.add(mt.split('no body for function')[-1].strip().split()[0])
-        nobody -= set(spec.get('nobody_ok', [])) | {'nondet_in'}
-        nobody = {f for f in nobody if not f.startswith('nondet_') and not f.startswith('__CPROVER')}
-        if nobody:
-            res['verdict'] = 'error'; res['detail'] = 'functions without a body reached (would be silently nondeterministic): %s' % sorted(nobody)
-            return res
-        if results is None:
-            oom = 'out of memory' in r['err'].lower() or 'bad_alloc' in r['err'] or r['rc'] in (-6, 134, -9, 137)
-            res['verdict'] = 'not_reached' if oom else 'error'
-            res['detail'] = 'cbmc gave no result table rc=%s %s %s' % (r['rc'], ' | '.join(msgs)[-800:], r['err'][-800:])
-            return res
+        ladder = spec.get('unwind_auto') or [spec.get('unwind')]
+        res['wall_main'] = 0.0
+        for step, uw in enumerate(ladder):
+            spec['unwind'] = uw
+            r = run(cbmc_cmd(spec, gb, False), timeout=to, cwd=work, mem_gb=spec.get('mem_gb', 4) + 1, stdout=outj)
+            res['wall_main'] += r['wall']
+            res['rss_kb'] = max(res['rss_kb'], r['rss_kb'])
+            res['unwind_used'] = uw
+            if r['timed_out']:
+                res['verdict'] = 'not_reached'; res['detail'] = 'timeout after %ds (unwind %s)' % (to, uw)
+                return res
+            if r['rc'] not in (0, 10):
+                res['verdict'] = 'not_reached'; res['detail'] = 'cbmc ended abnormally rc=%s (memory limit %s GB?) unwind %s %s' % (r['rc'], spec.get('mem_gb', 4) + 1, uw, r['err'][-400:])
+                return res
+            data = parse_json_stream(outj)
+            if data is None:
+                res['verdict'] = 'not_reached'; res['detail'] = 'no parsable cbmc output (rc=%s) %s' % (r['rc'], r['err'][-500:])
+                return res
+            results = None; msgs = []; nobody = set()
+            for x in data:
+                if isinstance(x, dict):
+                    if 'result' in x: results = x['result']
+                    if x.get('messageType') == 'ERROR': msgs.append(x.get('messageText', ''))
+                    mt = x.get('messageText', '')
+                    if 'no body for function' in mt:
+                        nobody.add(mt.split('no body for function')[-1].strip().split()[0])
+            nobody -= set(spec.get('nobody_ok', [])) | {'nondet_in'}
+            nobody = {f for f in nobody if not f.startswith('nondet_') and not f.startswith('__CPROVER')}
+            if nobody:
+                res['verdict'] = 'error'; res['detail'] = 'functions without a body reached (would be silently nondeterministic): %s' % sorted(nobody)
+                return res
+            if results is None:
+                oom = 'out of memory' in r['err'].lower() or 'bad_alloc' in r['err'] or r['rc'] in (-6, 134, -9, 137)
+                res['verdict'] = 'not_reached' if oom else 'error'
+                res['detail'] = 'cbmc gave no result table rc=%s %s %s' % (r['rc'], ' | '.join(msgs)[-800:], r['err'][-800:])
+                return res
+            failed = [x for x in results if x.get('status') == 'FAILURE']
+            only_unwind = failed and all('.unwind.' in x['property'] or 'recursion' in x['property'] for x in failed)
+            if only_unwind and step + 1 < len(ladder):
+                continue          # bound too small for this input size: the unwinding assertion says so; climb the ladder
+            break
         res['n_props'] = len(results)
-        failed = [x for x in results if x.get('status') == 'FAILURE']
         res['failed'] = [dict(property=x['property'], description=x.get('description', ''),
                               loc=(x.get('sourceLocation') or {}).get('function', '') + ':' + str((x.get('sourceLocation') or {}).get('line', '')))
                          for x in failed]
@@ -431,6 +440,7 @@ def run_harness(spec, work_root, prop_id, replay_root):
             for x in cov:
                 if isinstance(x, dict) and 'result' in x:
                     goals = [g for g in x['result'] if g.get('description', '').startswith('COVER ')]
+                    res['cover_opt_sat'] = sum(1 for g in x['result'] if g.get('description', '').startswith('COVEROPT ') and g.get('status') == 'FAILURE')
         if goals is None:
             res['cover_detail'] = 'cover run gave no goals (timed_out=%s rc=%s)' % (rc_['timed_out'], rc_['rc'])
         else:
@@ -535,7 +545,7 @@ def check_property(prop_id, tier, specs, meta, extra_results=None, seed=0):
         property_id=prop_id, tier=tier, seed=seed, level='model_checking',
         coverage=dict(
             evaluations=sum(r['n_props'] for r in results) + sum(r.get('queries', 0) for r in results),
-            distinct_nontrivial=sum(r['cover_sat'] for r in passed),
+            distinct_nontrivial=sum(r['cover_sat'] + r.get('cover_opt_sat', 0) for r in passed),
             rule='one evaluation = one verification condition (assertion / built-in safety check / unwinding assertion) decided by the '
                  'solver for ALL inputs inside the harness bound; distinct_nontrivial = number of distinct reachability goals '
                  '(__CPROVER_cover) the solver showed satisfiable in passing harnesses, i.e. distinct non-vacuous situations each '
